@@ -264,9 +264,25 @@ Fixpoint parse_items (fuel : nat) (l : language) (off : nat) (ts : list token) :
   | S f =>
       match ts with
       | [] => Some ([], [])
-      | t :: _ =>
+      | t :: after_t =>
           if is_rbrace t then Some ([], ts)
-          else match stmt_len ts O with
+          else
+          (* a bare block *)
+          match (if is_lbrace t then
+                   match parse_items f l (off + 1) after_t with
+                   | Some (ds1, c :: more) =>
+                       if is_rbrace c then
+                         match parse_items f l (off + 1 + (length after_t - length (c :: more)) + 1) more with
+                         | Some (ds2, rest3) => Some (ds1 ++ ds2, rest3)
+                         | None => None
+                         end
+                       else None
+                   | _ => None
+                   end
+                 else None) with
+          | Some x => Some x
+          | None =>
+          match stmt_len ts O with
                | Some n =>
                    if inner_b (firstn (n - 1) ts) then parse_items f l (off + n) (skipn n ts) else None
                | None =>
@@ -343,6 +359,7 @@ Fixpoint parse_items (fuel : nat) (l : language) (off : nat) (ts : list token) :
                    end
                    end
                end
+          end
       end
   end.
 
